@@ -9,7 +9,7 @@ const char* vf_property_id() { return "C20"; }
 static bool g_thorough = false;
 void vf_setup() { const char* e = getenv("VERIF_TIER"); g_thorough = e && !strcmp(e, "thorough"); }
 
-struct Archive { std::vector<uint8_t> bytes; std::vector<size_t> cSizes, dSizes; unsigned explicitEnds = 0, outFull = 0; };
+struct Archive { std::vector<uint8_t> bytes; std::vector<size_t> cSizes, dSizes; unsigned explicitEnds = 0, outFull = 0, emptyFrames = 0; };
 
 // exact-size heap blocks (ASan redzone at the capacity) for small capacities; one shared block for the big ones
 struct OutBuf { vf::Buf* own = nullptr; uint8_t* p; static std::vector<uint8_t>& big() { static std::vector<uint8_t> b(700000); return b; }
@@ -42,7 +42,9 @@ static Archive make_archive(vf::Ctx& c, const std::vector<uint8_t>& x, unsigned 
             VF_CHECK(c, ++calls < 4000000, "seekable compression does not terminate");
         }
         pos += n;
-        if (t.chance(15)) {   // explicit frame end
+        unsigned ends = t.chance(15) ? (t.chance(30) ? 2u : 1u) : 0u;   // explicit frame end; twice in a row = an EMPTY frame in the middle of the archive
+        for (unsigned e = 0; e < ends; e++) {
+            if (e) a.emptyFrames++;
             for (unsigned gd = 0;; gd++) {
                 size_t cap = std::max<size_t>(1, se::gen_chunk(t, 131072, false));
                 if (t.exhausted()) cap = 1u << 17;
@@ -130,6 +132,7 @@ void vf_case(vf::Ctx& c) {
     std::vector<uint8_t> x = gen::gen_content(t, maxsz, &ci);
     Archive a = make_archive(c, x, maxFrame, checksum, level);
     c.note("maxFrameSize=%u checksum=%d level=%d %s archive=%zuB explicitEnds=%u; ", maxFrame, checksum, level, ci.summary().c_str(), a.bytes.size(), a.explicitEnds);
+    if (a.emptyFrames) c.label("archives_with_empty_middle_frame");
 
     if (const char* dd = getenv("VF_DUMP_CORPUS")) {
         if (a.bytes.size() <= 3000 && a.bytes.size() > 20) {
@@ -185,8 +188,11 @@ void vf_case(vf::Ctx& c) {
             }
         }
         // offsetToFrameIndex agrees with the layout
-        for (unsigned k = 0; k < 12 && !x.empty(); k++) {
-            unsigned long long o = t.range(0, x.size() - 1);
+        std::vector<unsigned long long> starts; { unsigned long long acc = 0; for (unsigned i = 0; i < nf; i++) { starts.push_back(acc); acc += a.dSizes[i]; } }
+        for (unsigned k = 0; k < 24 && !x.empty(); k++) {
+            // random positions, and the first byte of frames (where two table entries share an offset when a frame is empty)
+            unsigned long long o = (k < 12 || starts.empty()) ? t.range(0, x.size() - 1) : starts[(size_t)t.range(0, starts.size() - 1)];
+            if (o >= x.size()) continue;
             unsigned fi = ZSTD_seekable_offsetToFrameIndex(zs, o);
             unsigned long long acc = 0; unsigned want = 0;
             for (unsigned i = 0; i < nf; i++) { if (o < acc + a.dSizes[i]) { want = i; break; } acc += a.dSizes[i]; }
